@@ -101,6 +101,13 @@ type C15Req struct {
 	Upd  int    `json:"upd"`           // scripted updates: index into Updates, -1 = nil
 	Fail bool   `json:"fail"`          // the handler fails ...
 	Err  string `json:"err,omitempty"` // ... with this text
+	// Rel relates parts of the message to each other (applied after the parts are resolved):
+	//   "res=ctr"      the container carries, as its own Linux.Resources, a deep copy of the request's resources
+	//   "res=ctr-same" ... the very same object
+	//   "ovh=res"      UpdatePodSandbox: the overhead is a deep copy of the resources
+	//   "ovh=res=pod"  ... the same object, and the pod's own overhead / resources are copies of it too
+	//   "ctrid=podid"  the container's id (and pod reference) is the pod's id
+	Rel string `json:"rel,omitempty"`
 	// ... and this form (nil = errors.New(text)), see errform_test.go
 	ErrForm *ErrSpec `json:"err_form,omitempty"`
 }
@@ -612,7 +619,42 @@ func genSession(t *rapid.T, ent typeEntry, c *C15Case, nsess int) C15Session {
 		case 1:
 			r.Ovh = -2
 		}
+		// relations between the parts of the message
+		switch rel := rapid.IntRange(0, 19).Draw(t, "rel"); {
+		case e == api.Event_UPDATE_CONTAINER && rel < 8:
+			r.Rel = []string{"res=ctr", "res=ctr-same"}[rel%2]
+			if rel < 6 && r.Ctr < 0 { // mostly with a real container and real resources
+				r.Ctr = rapid.IntRange(0, nc-1).Draw(t, "relctr")
+			}
+			if rel < 6 && r.Res < 0 {
+				r.Res = rapid.IntRange(0, nr-1).Draw(t, "relres")
+			}
+		case e == api.Event_UPDATE_POD_SANDBOX && rel < 8:
+			r.Rel = []string{"ovh=res", "ovh=res=pod"}[rel%2]
+			if rel < 6 && r.Res < 0 {
+				r.Res = rapid.IntRange(0, nr-1).Draw(t, "relres")
+			}
+		case rel >= 17:
+			r.Rel = "ctrid=podid"
+		case rel == 16:
+			r.Rel = rapid.SampledFrom([]string{"res=ctr", "res=ctr-same", "ovh=res", "ovh=res=pod"}).Draw(t, "anyrel")
+		}
 		s.Reqs = append(s.Reqs, r)
+		// the same request once more, verbatim; or one of an earlier session again
+		switch rapid.IntRange(0, 11).Draw(t, "repeat") {
+		case 0:
+			if i+1 < nreq {
+				s.Reqs = append(s.Reqs, r)
+				i++
+			}
+		case 1:
+			if len(c.Sessions) > 0 && i+1 < nreq {
+				if prev := c.Sessions[rapid.IntRange(0, len(c.Sessions)-1).Draw(t, "repeatsession")].Reqs; len(prev) > 0 {
+					s.Reqs = append(s.Reqs, prev[rapid.IntRange(0, len(prev)-1).Draw(t, "repeatreq")])
+					i++
+				}
+			}
+		}
 	}
 	return s
 }
@@ -1010,19 +1052,20 @@ func cfgExpect(ent typeEntry, c C15Session) (class string, mask api.EventMask) {
 
 // caseRun is the state of one execution of a case.
 type caseRun struct {
-	c        C15Case
-	ent      typeEntry
-	si       *stubInst
-	classes  map[string]bool
-	lenient  map[string]bool
-	hist     []string
-	expected int // handler invocations judged so far
-	sawImpl  bool
-	sawUnimp bool
-	narrowed api.EventMask // union of proper non-zero subsets earlier sessions were subscribed to (classes only)
-	hadSub   bool
-	hadSplit bool // an earlier session left the stub after a split or unfinished synchronization (classes only)
-	hadUnfin bool
+	c           C15Case
+	ent         typeEntry
+	si          *stubInst
+	classes     map[string]bool
+	lenient     map[string]bool
+	hist        []string
+	expected    int // handler invocations judged so far
+	sawImpl     bool
+	sawUnimp    bool
+	narrowed    api.EventMask // union of proper non-zero subsets earlier sessions were subscribed to (classes only)
+	hadSub      bool
+	hadSplit    bool // an earlier session left the stub after a split or unfinished synchronization (classes only)
+	hadUnfin    bool
+	earlierReqs map[string]bool // requests (as JSON) sent in earlier sessions (classes only)
 }
 
 func (cr *caseRun) note(f string, a ...any) { cr.hist = append(cr.hist, fmt.Sprintf(f, a...)) }
@@ -1287,6 +1330,15 @@ func (cr *caseRun) runSession(k int, s *session) (verdict, string) {
 			classes["resync:after-unfinished"] = true
 		}
 	}
+	announcedPod, announcedCtr := map[int]bool{}, map[int]bool{} // what this session's Synchronize announced (classes only)
+	for _, ch := range sc.SyncChunks {
+		for _, p := range ch.Pods {
+			announcedPod[p] = true
+		}
+		for _, p := range ch.Ctrs {
+			announcedCtr[p] = true
+		}
+	}
 	var allPods []*api.PodSandbox
 	var allCtrs []*api.Container
 	for i, ch := range sc.SyncChunks {
@@ -1405,6 +1457,44 @@ func (cr *caseRun) runSession(k int, s *session) (verdict, string) {
 			return nil
 		}
 		res, ovh := resOf(r.Res), resOf(r.Ovh)
+		switch r.Rel {
+		case "res=ctr", "res=ctr-same":
+			if ctr != nil && res != nil {
+				c2 := proto.Clone(ctr).(*api.Container)
+				if c2.Linux == nil {
+					c2.Linux = &api.LinuxContainer{}
+				}
+				c2.Linux.Resources = res
+				if r.Rel == "res=ctr" {
+					c2.Linux.Resources = proto.Clone(res).(*api.LinuxResources)
+				}
+				ctr = c2
+			}
+		case "ovh=res":
+			if res != nil {
+				ovh = proto.Clone(res).(*api.LinuxResources)
+			}
+		case "ovh=res=pod":
+			if res != nil {
+				ovh = res
+				if pod != nil {
+					p2 := proto.Clone(pod).(*api.PodSandbox)
+					if p2.Linux == nil {
+						p2.Linux = &api.LinuxPodSandbox{}
+					}
+					p2.Linux.PodOverhead = proto.Clone(res).(*api.LinuxResources)
+					p2.Linux.PodResources = proto.Clone(res).(*api.LinuxResources)
+					p2.Linux.Resources = proto.Clone(res).(*api.LinuxResources)
+					pod = p2
+				}
+			}
+		case "ctrid=podid":
+			if ctr != nil && pod != nil {
+				c2 := proto.Clone(ctr).(*api.Container)
+				c2.Id, c2.PodSandboxId = pod.GetId(), pod.GetId()
+				ctr = c2
+			}
+		}
 		var adj *api.ContainerAdjustment
 		if r.Adj >= 0 {
 			adj = c.Adjusts[r.Adj]
@@ -1504,6 +1594,42 @@ func (cr *caseRun) runSession(k int, s *session) (verdict, string) {
 				classes["shape:empty-resources"] = true
 			}
 		}
+		switch {
+		case e == api.Event_UPDATE_CONTAINER && res != nil && proto.Equal(res, ctr.GetLinux().GetResources()):
+			classes["rel:update-equals-container-resources"] = true
+			if proto.Size(res.GetCpu()) > 0 || proto.Size(res.GetMemory()) > 0 {
+				classes["rel:update-equals-container-resources(cpu/memory set)"] = true
+			}
+		case e == api.Event_UPDATE_POD_SANDBOX && res != nil && proto.Equal(res, ovh):
+			classes["rel:overhead-equals-resources"] = true
+			if proto.Equal(res, pod.GetLinux().GetPodResources()) {
+				classes["rel:pod-update-equals-pod-resources"] = true
+			}
+		}
+		if ctr != nil && pod != nil && ctr.GetId() == pod.GetId() {
+			classes["rel:container-id-equals-pod-id"] = true
+		}
+		if !podEvent(e) && r.Ctr >= 0 {
+			if announcedCtr[r.Ctr] {
+				classes["rel:container-announced-in-synchronize"] = true
+			} else {
+				classes["rel:container-never-announced"] = true
+			}
+		}
+		if r.Pod >= 0 {
+			if announcedPod[r.Pod] {
+				classes["rel:pod-announced-in-synchronize"] = true
+			} else {
+				classes["rel:pod-never-announced"] = true
+			}
+		}
+		key := string(ev.Snapshot(r))
+		if i > 0 && string(ev.Snapshot(sc.Reqs[i-1])) == key {
+			classes["rel:request-repeated-verbatim"] = true
+		}
+		if cr.earlierReqs[key] {
+			classes["rel:request-of-an-earlier-session"] = true
+		}
 		if wantMask&evbit(e) == 0 {
 			// Implemented but not subscribed: the runtime filters by the mask and never sends
 			// this; the stub dispatches by handler presence. The statement does not say which
@@ -1555,6 +1681,12 @@ func (cr *caseRun) runSession(k int, s *session) (verdict, string) {
 		if !proto.Equal(got, want) {
 			return fail("%s: handler returned %s, the runtime received %s", where, short(want), short(got))
 		}
+	}
+	if cr.earlierReqs == nil {
+		cr.earlierReqs = map[string]bool{}
+	}
+	for _, r := range sc.Reqs {
+		cr.earlierReqs[string(ev.Snapshot(r))] = true
 	}
 	// nothing ran behind our back during this session
 	if total := len(rec.snapshot()); total != cr.expected {
@@ -1732,6 +1864,24 @@ func TestExh_C15(t *testing.T) {
 			C15Req{Event: e, Pod: -1, Ctr: -2, Ovh: 0, Res: -2, Adj: -1, Upd: 0},
 			C15Req{Event: e, Pod: -1, Ctr: -1, Ovh: -1, Res: -1, Adj: 0, Upd: 0})
 	}
+	// relations between the parts of a message, and verbatim repetitions
+	var relReqs []C15Req
+	for _, rel := range []string{"res=ctr", "res=ctr-same"} {
+		for _, resIdx := range []int{0, 1} {
+			relReqs = append(relReqs,
+				C15Req{Event: int32(api.Event_UPDATE_CONTAINER), Res: resIdx, Ovh: -1, Adj: -1, Upd: 0, Rel: rel},
+				C15Req{Event: int32(api.Event_UPDATE_CONTAINER), Res: resIdx, Ovh: -1, Adj: -1, Upd: -1, Rel: rel, Fail: true, Err: "exh-rel-fail"})
+		}
+	}
+	for _, rel := range []string{"ovh=res", "ovh=res=pod"} {
+		relReqs = append(relReqs,
+			C15Req{Event: int32(api.Event_UPDATE_POD_SANDBOX), Ctr: -1, Res: 1, Ovh: 0, Adj: -1, Upd: -1, Rel: rel},
+			C15Req{Event: int32(api.Event_UPDATE_POD_SANDBOX), Ctr: -1, Res: 0, Ovh: 1, Adj: -1, Upd: -1, Rel: rel, Fail: true, Err: "exh-rel-fail"})
+	}
+	for e := int32(1); e <= 13; e++ {
+		r := C15Req{Event: e, Res: 1, Ovh: 0, Adj: 0, Upd: 0, Rel: "ctrid=podid"}
+		relReqs = append(relReqs, r, r) // and once more, verbatim
+	}
 	sess := func(mask api.EventMask, end string, reqs ...[]C15Req) C15Session {
 		s := C15Session{CfgMask: int32(mask), Config: "cfg", Runtime: "verif", Version: "1.0", End: end, SyncUpd: -1}
 		for _, rs := range reqs {
@@ -1811,7 +1961,7 @@ func TestExh_C15(t *testing.T) {
 			if ent.HasConfigure {
 				m1, m2 = lo, ent.Mask
 			}
-			runOne(mk(ti, withSync(sess(m1, "close", okReqs, failReqs, shapeReqs, formReqs(ti)), true, false, one)))
+			runOne(mk(ti, withSync(sess(m1, "close", okReqs, failReqs, shapeReqs, formReqs(ti), relReqs), true, false, one)))
 			runOne(mk(ti,
 				withSync(sess(m2, "stop", okReqs), true, false, ch([]int{0}, []int{0}), ch([]int{1}, []int{1, 1})),
 				withSync(sess(m1, "close", okReqs), true, false, ch([]int{1}, nil)),
@@ -1823,14 +1973,14 @@ func TestExh_C15(t *testing.T) {
 			continue
 		}
 		if !ent.HasConfigure {
-			runOne(mk(ti, withSync(sess(0, "close", okReqs, failReqs, shapeReqs, formReqs(ti)), true, false, one)))
+			runOne(mk(ti, withSync(sess(0, "close", okReqs, failReqs, shapeReqs, formReqs(ti), relReqs), true, false, one)))
 			// restart: three connections of one stub, ended both ways (no Synchronize handler:
 			// every synchronization message just succeeds)
 			runOne(mk(ti, withSync(sess(0, "stop", okReqs), true, false, one, one), withSync(sess(0, "close", failReqs), false, false, one), sess(0, "stop", okReqs)))
 			continue
 		}
 		for _, m := range []api.EventMask{0, ent.Mask} {
-			runOne(mk(ti, sess(m, "close", okReqs, failReqs, shapeReqs, formReqs(ti))))
+			runOne(mk(ti, sess(m, "close", okReqs, failReqs, shapeReqs, formReqs(ti), relReqs)))
 		}
 		for _, e := range implEv {
 			if evbit(e) == ent.Mask {
@@ -1872,7 +2022,7 @@ func TestExh_C15(t *testing.T) {
 		}
 	}
 	r.SetExtra("exhaustive", map[string]any{
-		"subdomain": "every generated plugin type (512: 128 handler sets x with/without Configure x with/without Synchronize) x each of the 13 event kinds (succeeding and failing handler; documented message shape, container present/absent the other way round, pod/container/resources absent and present-but-empty; the failing handler's error in every form x sentinel / status code, round-robin over types and kinds); for the types without Synchronize handler: Configure returning 0, the implemented mask, each single implemented event, implemented+each single unimplemented event, and, for every third handler set, about twenty masks using bits 13..31 (all ones, the sign bit, bits 13..30; alone and on top of handled / unhandled events); per type restart sequences on one stub (3 connections; with Configure: subset -> 0 -> complementary subset, complementary subset -> subset -> implemented mask, rejected -> error -> implemented mask); for the types with Synchronize handler one stub synchronized six times in a row: split -> one message -> cut short after 3 messages -> split with failing handler -> cut short after 1 message -> one message",
+		"subdomain": "every generated plugin type (512: 128 handler sets x with/without Configure x with/without Synchronize) x each of the 13 event kinds (succeeding and failing handler; documented message shape, container present/absent the other way round, pod/container/resources absent and present-but-empty; the failing handler's error in every form x sentinel / status code, round-robin over types and kinds; related message parts: update resources equal to the container's own, overhead equal to resources and to the pod's own, container id equal to pod id, every request repeated verbatim); for the types without Synchronize handler: Configure returning 0, the implemented mask, each single implemented event, implemented+each single unimplemented event, and, for every third handler set, about twenty masks using bits 13..31 (all ones, the sign bit, bits 13..30; alone and on top of handled / unhandled events); per type restart sequences on one stub (3 connections; with Configure: subset -> 0 -> complementary subset, complementary subset -> subset -> implemented mask, rejected -> error -> implemented mask); for the types with Synchronize handler one stub synchronized six times in a row: split -> one message -> cut short after 3 messages -> split with failing handler -> cut short after 1 message -> one message",
 		"types":     len(registry),
 		"cases":     cases,
 		"sessions":  sessions,
